@@ -1,13 +1,19 @@
 (* Extract/RunCore.v — runner commands 1-99: the core integral models. *)
 From Coq Require Import ZArith QArith Qcanon List.
 From GB Require Import Base.Field Base.FNum Model.Shell Model.MomentInt Model.Spherical
-  Model.Assembly Model.Overlap Model.DiffOp Model.OneBody Extract.Sx.
+  Model.Assembly Model.Overlap Model.DiffOp Model.OneElec Model.OneBody Extract.Sx.
 Import ListNotations.
 
 Definition err (code : Z) : sx := SL [SZ (-1); SZ code].
 
 (* Each area contributes a partial dispatcher [Z -> list sx -> option sx];
    command codes: core integrals 1-99, others see notes/AGENT_GUIDE.md. *)
+Definition dec_pt (s : sx) : Qc * Qc * Qc * Qc :=
+  match s with
+  | SL [x; y; z; q] => (dec_q x, dec_q y, dec_q z, dec_q q)
+  | _ => (dec_q (SZ 0), dec_q (SZ 0), dec_q (SZ 0), dec_q (SZ 0))
+  end.
+
 Definition run_core (K : Fops Qc) (c : Z) (args : list sx) : option sx :=
   match c, args with
   (* 1: Overlap.construct_array_contraction(sa, sb) -> [Ma][La][Mb][Lb] *)
@@ -45,6 +51,16 @@ Definition run_core (K : Fops Qc) (c : Z) (args : list sx) : option sx :=
   | 12%Z, [sa; sb] => Some (enc5 (angmom_block_re K (dec_shell sa) (dec_shell sb)))
   | 13%Z, [basis; t] =>
       Some (enc3 (angmom_integral_re K (dec_list dec_shell basis) (dec_opt dec_mat t)))
+  (* 14/15/16: point-charge block / point_charge_integral / nuclear attraction;
+     points = ((x y z q) ...) *)
+  | 14%Z, [pts; sa; sb] =>
+      Some (enc5 (point_charge_block K (dec_list dec_pt pts) (dec_shell sa) (dec_shell sb)))
+  | 15%Z, [pts; basis; t] =>
+      Some (enc3 (point_charge_integral K (dec_list dec_pt pts) (dec_list dec_shell basis)
+                (dec_opt dec_mat t)))
+  | 16%Z, [pts; basis; t] =>
+      Some (enc2 (nuclear_attraction_integral K (dec_list dec_pt pts) (dec_list dec_shell basis)
+                (dec_opt dec_mat t)))
   | _, _ => None
   end.
 
